@@ -1,2 +1,350 @@
 (* NetFacts.v — lemmas about the network-layer model Net.v (property C06). *)
+From Coq Require Import ZifyBool ZifyN ZifyNat.
 From Bac Require Import Base Net.
+Ltac Zify.zify_post_hook ::= Z.to_euclidean_division_equations.
+Open Scope N_scope.
+
+Definition is_fwd (a : action) : bool := match a with Fwd _ _ _ => true | _ => false end.
+Definition is_up (a : action) : bool := match a with Up _ _ _ => true | _ => false end.
+
+Lemma other_ports_neq : forall n i j, In j (other_ports n i) -> j <> i.
+Proof.
+  unfold other_ports; intros n i j H. apply filter_In in H. destruct H as [_ H].
+  destruct (Nat.eqb_spec j i); [discriminate | assumption].
+Qed.
+
+Lemma other_ports_lt : forall n i j, In j (other_ports n i) -> (j < length (adapters n))%nat.
+Proof.
+  unfold other_ports; intros n i j H. apply filter_In in H. destruct H as [H _].
+  apply in_seq in H. lia.
+Qed.
+
+(* the sender's identity attached by a forwarding router *)
+Definition fwd_sadr (inet : N) (src : mac) (p : npdu) : N * mac :=
+  match n_sadr p with Some s => s | None => (inet, src) end.
+
+Definition targets (dd : dadr) (dnet : N) : Prop :=
+  dd = DBcast dnet \/ exists mm, dd = DStation dnet mm.
+
+Lemma forward_fwd : forall n i ai src p dd j d q,
+  In (Fwd j d q) (forward n i ai src p dd) ->
+  n_hop p <> 0 /\ n_hop q = n_hop p - 1 /\ n_data q = n_data p /\ n_msg q = n_msg p /\
+  (exists inet, a_net ai = Some inet /\ n_sadr q = Some (fwd_sadr inet src p)) /\
+  (n_dadr q = n_dadr p \/ n_dadr q = None) /\
+  (j <> i \/ exists dnet m, targets dd dnet /\ find_net n (Some dnet) = None /\
+                            find_path n dnet = Some (i, m) /\ d = LStation m /\ n_dadr q = n_dadr p).
+Proof.
+  intros n i ai src p dd j d q H. unfold forward in H.
+  destruct (negb (is_router n)); [inversion H|].
+  destruct (n_hop p =? 0) eqn:Eh; [inversion H|]. apply N.eqb_neq in Eh.
+  destruct (a_net ai) as [inet|] eqn:Ei; [|destruct H as [H|[]]; discriminate].
+  assert (Hrouted : forall dnet final,
+    In (Fwd j d q)
+      match find_net n (Some dnet) with
+      | Some j0 => if Nat.eqb j0 i then [] else
+          [Fwd j0 final (mkNpdu None (Some (fwd_sadr inet src p)) (n_hop p - 1) (n_msg p) (n_data p))]
+      | None => match find_path n dnet with
+                | Some (j0, m) => [Fwd j0 (LStation m)
+                      (mkNpdu (n_dadr p) (Some (fwd_sadr inet src p)) (n_hop p - 1) (n_msg p) (n_data p))]
+                | None => map (fun j0 => Tx j0 LBcast (who_is dnet None)) (other_ports n i)
+                end
+      end ->
+    n_hop q = n_hop p - 1 /\ n_data q = n_data p /\ n_msg q = n_msg p /\
+    n_sadr q = Some (fwd_sadr inet src p) /\ (n_dadr q = n_dadr p \/ n_dadr q = None) /\
+    (j <> i \/ exists m, find_net n (Some dnet) = None /\ find_path n dnet = Some (i, m) /\
+                         d = LStation m /\ n_dadr q = n_dadr p)).
+  { intros dnet final H0.
+    destruct (find_net n (Some dnet)) as [j0|] eqn:Ef.
+    - destruct (Nat.eqb_spec j0 i); [inversion H0|].
+      destruct H0 as [H0|[]]. inversion H0; subst. cbn. repeat split; auto.
+    - destruct (find_path n dnet) as [[j0 m]|] eqn:Ep.
+      + destruct H0 as [H0|[]]. inversion H0; subst. cbn. repeat split; auto.
+        destruct (Nat.eq_dec j i); [right; exists m; subst; auto | left; auto].
+      + apply in_map_iff in H0. destruct H0 as [x [Hx _]]. discriminate. }
+  split; [assumption|].
+  destruct dd as [|dnet|dnet mm].
+  - apply in_map_iff in H. destruct H as [x [Hx Hin]]. inversion Hx; subst. cbn.
+    repeat split; auto. exists inet; auto. left. eapply other_ports_neq; eauto.
+  - apply Hrouted in H. destruct H as (A & B & C & D & E & F).
+    repeat split; auto. exists inet; auto.
+    destruct F as [F|[m F]]; [left; auto|right; exists dnet, m].
+    destruct F as (F1 & F2 & F3 & F4). repeat split; auto. left; reflexivity.
+  - apply Hrouted in H. destruct H as (A & B & C & D & E & F).
+    repeat split; auto. exists inet; auto.
+    destruct F as [F|[m F]]; [left; auto|right; exists dnet, m].
+    destruct F as (F1 & F2 & F3 & F4). repeat split; auto. right; exists mm; reflexivity.
+Qed.
+
+Definition no_fwd (l : list action) : Prop := forall j d q, ~ In (Fwd j d q) l.
+
+Lemma no_fwd_map_tx : forall (f : nat -> action) l, (forall x, is_fwd (f x) = false) -> no_fwd (map f l).
+Proof.
+  intros f l Hf j d q H. apply in_map_iff in H. destruct H as [x [Hx _]].
+  specialize (Hf x). rewrite Hx in Hf. discriminate.
+Qed.
+
+Lemma no_fwd_app : forall a b, no_fwd a -> no_fwd b -> no_fwd (a ++ b).
+Proof. intros a b Ha Hb j d q H. apply in_app_or in H. destruct H; [eapply Ha|eapply Hb]; eauto. Qed.
+
+Lemma no_fwd_nil : no_fwd [].
+Proof. intros j d q H. inversion H. Qed.
+
+Lemma no_fwd_one : forall a, is_fwd a = false -> no_fwd [a].
+Proof. intros a Ha j d q [H|[]]. subst. discriminate. Qed.
+
+Lemma nse_who_is_spec : forall n i ai src p w n' acts,
+  nse_who_is n i ai src p w = (n', acts) -> n' = n /\ no_fwd acts /\ (forall s d x, ~ In (Up s d x) acts).
+Proof.
+  intros n i ai src p w n' acts H. unfold nse_who_is in H.
+  repeat match type of H with
+  | context [match ?x with _ => _ end] => destruct x eqn:?
+  | context [if ?x then _ else _] => destruct x eqn:?
+  end; inversion H; subst; clear H; (split; [reflexivity|]); split;
+  try apply no_fwd_nil; try (apply no_fwd_one; reflexivity);
+  try (apply no_fwd_map_tx; intro; reflexivity);
+  intros s d x Hin; try (apply in_map_iff in Hin; destruct Hin as [? [? _]]; discriminate);
+  try (destruct Hin as [Hin|[]]; discriminate); try inversion Hin.
+Qed.
+
+Lemma pending_get_in : forall p d l, pending_get p d = Some l -> In (d, l) p.
+Proof.
+  induction p as [|[k kl] r IH]; cbn; intros d l H; [discriminate|].
+  destruct (N.eqb_spec k d).
+  - inversion H; subst. left; reflexivity.
+  - right. apply IH; assumption.
+Qed.
+
+Lemma pending_del_in : forall p d x, In x (pending_del p d) -> In x p.
+Proof.
+  induction p as [|[k kl] r IH]; cbn; intros d x H; [assumption|].
+  destruct (k =? d); [right; assumption|].
+  destruct H as [H|H]; [left; assumption|right; eapply IH; eauto].
+Qed.
+
+(* everything release emits is a parked packet, sent to the announcing router on the arrival adapter *)
+Lemma release_spec : forall nets pend i src pend' acts,
+  release pend i src nets = (pend', acts) ->
+  forall a, In a acts -> exists q, a = Tx i (LStation src) q /\ exists d l, In (d, l) pend /\ In q l.
+Proof.
+  induction nets as [|d r IH]; intros pend i src pend' acts H a Ha.
+  - inversion H; subst. inversion Ha.
+  - cbn [release] in H. destruct (pending_get pend d) as [l|] eqn:Eg.
+    + destruct (release (pending_del pend d) i src r) as [pe ac] eqn:Er. inversion H; subst; clear H.
+      apply in_app_or in Ha. destruct Ha as [Ha|Ha].
+      * apply in_map_iff in Ha. destruct Ha as [q [Hq Hin]]. exists q. split; [auto|]. exists d, l.
+        split; [apply pending_get_in; assumption|assumption].
+      * destruct (IH _ _ _ _ _ Er a Ha) as [q [Hq [d' [l' [Hg Hin]]]]].
+        exists q. split; [auto|]. exists d', l'. split; [eapply pending_del_in; eauto|assumption].
+    + eapply IH; eauto.
+Qed.
+
+Lemma release_no_fwd : forall nets pend i src pend' acts,
+  release pend i src nets = (pend', acts) -> no_fwd acts /\ (forall s d x, ~ In (Up s d x) acts).
+Proof.
+  intros nets pend i src pend' acts H. split.
+  - intros j d q Hin. destruct (release_spec _ _ _ _ _ _ H _ Hin) as [q' [Hq _]]. discriminate.
+  - intros s d x Hin. destruct (release_spec _ _ _ _ _ _ H _ Hin) as [q' [Hq _]]. discriminate.
+Qed.
+
+Lemma nse_i_am_spec : forall n i ai src nets n' acts,
+  nse_i_am n i ai src nets = (n', acts) ->
+  adapters n' = adapters n /\ has_app n' = has_app n /\
+  rcache n' = cache_update (rcache n) (a_net ai) src nets /\
+  no_fwd acts /\ (forall s d x, ~ In (Up s d x) acts).
+Proof.
+  intros n i ai src nets n' acts H. unfold nse_i_am in H.
+  destruct (release (pending (set_cache n (cache_update (rcache n) (a_net ai) src nets))) i src nets)
+    as [pe ac] eqn:Er.
+  inversion H; subst; clear H. cbn. repeat split.
+  - apply no_fwd_app; [|apply (release_no_fwd _ _ _ _ _ _ Er)].
+    destruct (is_router n); [apply no_fwd_map_tx; intro; reflexivity|apply no_fwd_nil].
+  - intros s d x Hin. apply in_app_or in Hin. destruct Hin as [Hin|Hin].
+    + destruct (is_router n); [|inversion Hin].
+      apply in_map_iff in Hin. destruct Hin as [? [? _]]. discriminate.
+    + eapply (proj2 (release_no_fwd _ _ _ _ _ _ Er)); eauto.
+Qed.
+
+Ltac dmatch H :=
+  repeat match type of H with
+  | context [match ?x with _ => _ end] => destruct x eqn:?
+  | context [if ?x then _ else _] => destruct x eqn:?
+  end.
+
+Ltac split_in Hin :=
+  repeat match type of Hin with
+  | In _ (_ ++ _) => apply in_app_or in Hin; destruct Hin as [Hin|Hin]
+  | In _ (_ :: _) => destruct Hin as [Hin|Hin]; [try discriminate|]
+  | In _ [] => inversion Hin
+  end.
+
+Lemma process_npdu_fwd_origin : forall n i src dst p n' acts j d q,
+  process_npdu n i src dst p = (n', acts) -> In (Fwd j d q) acts ->
+  exists ai dd, nth_adapter n i = Some ai /\ n_dadr p = Some dd /\
+                In (Fwd j d q) (forward n' i ai src p dd).
+Proof.
+  intros n i src dst p n' acts j d q H Hin. unfold process_npdu in H.
+  destruct (nth_adapter n i) as [ai|] eqn:Ea; [|inversion H; subst; split_in Hin].
+  destruct (negb (modelled_config n)); [inversion H; subst; split_in Hin|].
+  match type of H with (if ?s then _ else _) = _ => destruct s end; [inversion H; subst; split_in Hin|].
+  match type of H with context [match ?dec with Err _ => _ | Ok _ => _ end] => destruct dec as [[[pl fw]|]|e] end;
+    [| inversion H; subst; split_in Hin | inversion H; subst; split_in Hin].
+  destruct (n_msg p) as [t|] eqn:Em.
+  - destruct pl.
+    + destruct (negb (known_msg t)); [inversion H; subst; split_in Hin|].
+      destruct (t =? 0).
+      * destruct (dec_who_is (n_data p)) as [w|e]; [|inversion H; subst; split_in Hin].
+        match type of H with context [nse_who_is ?a ?b ?c ?dd ?e ?f] => destruct (nse_who_is a b c dd e f) as [n2 ac] eqn:Ew end.
+        destruct (nse_who_is_spec _ _ _ _ _ _ _ _ Ew) as (Hn & Hnf & _). inversion H; subst; clear H.
+        apply in_app_or in Hin. destruct Hin as [Hin|Hin]; [exfalso; eapply Hnf; eauto|].
+        destruct (n_dadr p) as [dd|]; [|inversion Hin]. destruct fw; [|inversion Hin].
+        exists ai, dd. auto.
+      * destruct (t =? 1); [|inversion H; subst; split_in Hin].
+        destruct (dec_i_am (n_data p)) as [nets|e]; [|inversion H; subst; split_in Hin].
+        match type of H with context [nse_i_am ?a ?b ?c ?dd ?e] => destruct (nse_i_am a b c dd e) as [n2 ac] eqn:Ew end.
+        destruct (nse_i_am_spec _ _ _ _ _ _ _ Ew) as (_ & _ & _ & Hnf & _). inversion H; subst; clear H.
+        apply in_app_or in Hin. destruct Hin as [Hin|Hin]; [exfalso; eapply Hnf; eauto|].
+        destruct (n_dadr p) as [dd|]; [|inversion Hin]. destruct fw; [|inversion Hin].
+        exists ai, dd. auto.
+    + inversion H; subst; clear H.
+      destruct (n_dadr p) as [dd|]; [|inversion Hin]. destruct fw; [|inversion Hin]. exists ai, dd. auto.
+  - match type of H with (if ?c then _ else _) = _ => destruct c end.
+    + destruct (negb (apdu_ok (n_data p))); [inversion H; subst; split_in Hin|].
+      inversion H; subst; clear H. destruct Hin as [Hin|Hin]; [discriminate|].
+      destruct (n_dadr p) as [dd|]; [|inversion Hin]. destruct fw; [|inversion Hin]. exists ai, dd. auto.
+    + inversion H; subst; clear H.
+      destruct (n_dadr p) as [dd|]; [|inversion Hin]. destruct fw; [|inversion Hin]. exists ai, dd. auto.
+Qed.
+
+(* ---- the local adapter exists *)
+Lemma last_with_addr_range : forall l i acc k,
+  last_with_addr l i acc = Some k -> acc = Some k \/ (i <= k < i + length l)%nat.
+Proof.
+  induction l as [|a r IH]; cbn [last_with_addr length]; intros i acc k H; [left; assumption|].
+  apply IH in H. destruct H as [H|H]; [|right; lia].
+  destruct (a_mac a); [inversion H; subst; right; lia|left; assumption].
+Qed.
+
+Lemma local_idx_lt : forall n, adapters n <> [] -> (local_idx n < length (adapters n))%nat.
+Proof.
+  intros n Hne. unfold local_idx.
+  destruct (last_with_addr (adapters n) 0 None) as [k|] eqn:E.
+  - apply last_with_addr_range in E. destruct E as [E|E]; [discriminate|lia].
+  - destruct (adapters n); [congruence|cbn; lia].
+Qed.
+
+Lemma local_adapter_exists : forall n i ai, nth_adapter n i = Some ai ->
+  exists la, nth_adapter n (local_idx n) = Some la.
+Proof.
+  intros n i ai H. unfold nth_adapter in *.
+  assert (adapters n <> []) by (intro E; rewrite E in H; destruct i; discriminate).
+  destruct (nth_error (adapters n) (local_idx n)) eqn:E; [eauto|].
+  apply nth_error_None in E. pose proof (local_idx_lt n H0). lia.
+Qed.
+
+Lemma list_eqb_N_eq : forall a b : list N, list_eqb N.eqb a b = true -> a = b.
+Proof.
+  induction a as [|x a IH]; destruct b as [|y b]; cbn; intro H; try discriminate; [reflexivity|].
+  apply andb_prop in H. destruct H as [H1 H2]. apply N.eqb_eq in H1. f_equal; auto.
+Qed.
+
+Lemma mac_eqb_eq : forall a b, mac_eqb a b = true -> a = b.
+Proof. exact list_eqb_N_eq. Qed.
+
+Lemma optN_eqb_some : forall x o, optN_eqb (Some x) o = true -> o = Some x.
+Proof. intros x [y|]; cbn; intro H; [apply N.eqb_eq in H; subst; reflexivity|discriminate]. Qed.
+
+Lemma forward_no_up : forall n i ai src p dd s d x, ~ In (Up s d x) (forward n i ai src p dd).
+Proof.
+  intros n i ai src p dd s d x H. unfold forward in H.
+  dmatch H; split_in H;
+  try (apply in_map_iff in H; destruct H as [? [? _]]; discriminate).
+Qed.
+
+(* what is handed to the application, and when *)
+Definition shown_source (n : node) (i : nat) (ai : adapter) (src : mac) (p : npdu) : addr :=
+  match n_sadr p with
+  | Some (sn, sm) => ARS sn sm
+  | None => if is_router n && negb (Nat.eqb i (local_idx n))
+            then match a_net ai with Some inet => ARS inet src | None => ANone end
+            else ALS src
+  end.
+
+Ltac no_up_tail Hin :=
+  match type of Hin with
+  | In _ match ?dd with Some _ => _ | None => _ end =>
+      destruct dd; [|inversion Hin];
+      match type of Hin with In _ (if ?fw then _ else _) => destruct fw; [|inversion Hin] end;
+      exfalso; eapply forward_no_up; eauto
+  end.
+
+Lemma process_npdu_up : forall n i src dst p n' acts s d x,
+  process_npdu n i src dst p = (n', acts) -> In (Up s d x) acts ->
+  exists ai la, nth_adapter n i = Some ai /\ nth_adapter n (local_idx n) = Some la /\
+    x = n_data p /\ n_msg p = None /\ has_app n = true /\ s = shown_source n i ai src p /\
+    match n_dadr p with
+    | None => i = local_idx n
+    | Some (DStation dnet m) => a_net la = Some dnet /\ a_mac la = Some m
+    | Some (DBcast dnet) => a_net la = Some dnet
+    | Some DGlobal => True
+    end.
+Proof.
+  intros n i src dst p n' acts s d x H Hin. unfold process_npdu in H.
+  destruct (nth_adapter n i) as [ai|] eqn:Ea; [|inversion H; subst; split_in Hin].
+  destruct (local_adapter_exists _ _ _ Ea) as [la Hla]. rewrite Hla in H.
+  destruct (negb (modelled_config n)); [inversion H; subst; split_in Hin|].
+  match type of H with (if ?s then _ else _) = _ => destruct s end; [inversion H; subst; split_in Hin|].
+  exists ai, la.
+  destruct (n_msg p) as [t|] eqn:Em.
+  - exfalso.
+    match type of H with context [match ?dec with Err _ => _ | Ok _ => _ end] => destruct dec as [[[pl fw]|]|e] end;
+      [| inversion H; subst; split_in Hin | inversion H; subst; split_in Hin].
+    destruct pl; [|inversion H; subst; clear H; no_up_tail Hin].
+    destruct (negb (known_msg t)); [inversion H; subst; split_in Hin|].
+    destruct (t =? 0).
+    + destruct (dec_who_is (n_data p)) as [w|e]; [|inversion H; subst; split_in Hin].
+      match type of H with context [nse_who_is ?a ?b ?c ?dd ?e ?f] => destruct (nse_who_is a b c dd e f) as [n2 ac] eqn:Ew end.
+      destruct (nse_who_is_spec _ _ _ _ _ _ _ _ Ew) as (_ & _ & Hnu). inversion H; subst; clear H.
+      apply in_app_or in Hin. destruct Hin as [Hin|Hin]; [eapply Hnu; eauto|]. no_up_tail Hin.
+    + destruct (t =? 1); [|inversion H; subst; split_in Hin].
+      destruct (dec_i_am (n_data p)) as [nets|e]; [|inversion H; subst; split_in Hin].
+      match type of H with context [nse_i_am ?a ?b ?c ?dd ?e] => destruct (nse_i_am a b c dd e) as [n2 ac] eqn:Ew end.
+      destruct (nse_i_am_spec _ _ _ _ _ _ _ Ew) as (_ & _ & _ & _ & Hnu). inversion H; subst; clear H.
+      apply in_app_or in Hin. destruct Hin as [Hin|Hin]; [eapply Hnu; eauto|]. no_up_tail Hin.
+  - assert (Hs : forall n1, is_router n1 = is_router n -> local_idx n1 = local_idx n ->
+                 shown_source n i ai src p =
+                 match n_sadr p with
+                 | Some (sn, sm) => ARS sn sm
+                 | None => if is_router n1 && negb (Nat.eqb i (local_idx n1))
+                           then match a_net ai with Some inet => ARS inet src | None => ANone end
+                           else ALS src end).
+    { intros n1 E1 E2. unfold shown_source. rewrite E1, E2. reflexivity. }
+    destruct (n_sadr p) as [[sn sm]|] eqn:Es;
+    destruct (n_dadr p) as [[|dn|dn m]|] eqn:Ed; cbn [fst snd] in H;
+    dmatch H; inversion H; subst; clear H;
+    try solve [split_in Hin];
+    try solve [exfalso; destruct Hin as [Hin|Hin]; [discriminate|]; eapply forward_no_up; eauto];
+    try solve [exfalso; eapply forward_no_up; eauto].
+    all: destruct Hin as [Hin|Hin]; [|try solve [inversion Hin]; try solve [exfalso; eapply forward_no_up; eauto]].
+    all: inversion Hin; subst; clear Hin.
+    all: repeat match goal with
+         | H : (if ?c then _ else _) = _ |- _ => destruct c eqn:?; try discriminate
+         | H : match ?c with Some _ => _ | None => _ end = _ |- _ => destruct c eqn:?; try discriminate
+         | H : Ok _ = Ok _ |- _ => inversion H; subst; clear H
+         end.
+    all: cbn [has_app set_cache adapters is_router local_idx] in *.
+    all: repeat split; auto; try congruence.
+    all: try (unfold shown_source; rewrite Es;
+              try match goal with H : ?c = _ |- context [if ?c then _ else _] => rewrite H end;
+              try match goal with H : a_net _ = _ |- _ => rewrite H end; reflexivity).
+    all: repeat match goal with
+         | H : _ && _ = true |- _ => apply andb_prop in H; destruct H
+         | H : _ || false = true |- _ => rewrite orb_false_r in H
+         | H : optN_eqb (Some _) _ = true |- _ => apply optN_eqb_some in H
+         | H : mac_eqb _ _ = true |- _ => apply mac_eqb_eq in H
+         | H : Nat.eqb _ _ = true |- _ => apply Nat.eqb_eq in H
+         end; try congruence; auto.
+    all: repeat match goal with
+         | H : match a_net ?l with Some _ => _ | None => _ end = true |- _ =>
+             destruct (a_net l) eqn:?; [apply N.eqb_eq in H; subst|discriminate]
+         end; auto.
+Qed.
